@@ -7,6 +7,33 @@ VERIF = os.path.dirname(os.path.dirname(os.path.abspath(__file__)))
 props = [json.loads(l) for l in open(os.path.join(VERIF, "properties.jsonl"))]
 
 CLAIMED = {
+    "C01": dict(
+        category="proof",
+        text="Closed theorem go_natural, for every carrier and every interpretation of the operators, every tree and depth: "
+             "evaluating the compile model's output at a point equals running the same _compile traversal on VALUES with the "
+             "original local expressions (no substitution anywhere). The compile model is a hand-written Gallina transcription "
+             "of _compile.py/preprocessing.py tied to the code by a differential stream (model vs real compile_routine at every "
+             "node/resource/port, compared inside Coq), and an independent bottom-up specification den_src written from the "
+             "property text on the SOURCE routine is compared with the real code on every case. Partial in one respect: "
+             "den (IR-level) = den_src (source-level, i.e. the four preprocessing stages preserve meaning) is validated by the "
+             "stream (model vs spec), not proved.",
+        design_ref="DESIGN.md section 5 C01, section 3.5",
+        note="Trusted: Coq kernel; hand model of _compile/preprocessing (tied by the stream); sympy's subs(simultaneous=True) "
+             "is simultaneous substitution; translator for the stage order and the repetition dispatch table.",
+        technique="Coq naturality theorem over a generic traversal + differential correspondence against an executable denotational spec",
+    ),
+    "C05": dict(
+        category="proof",
+        text="Closed theorems about the evaluate model: identical result for every permutation of a duplicate-free assignment; "
+             "soundness for every carrier/interpretation (value of the result at rho = value of the original after the "
+             "assignment); composition of steps with closed values; empty assignment; untouched symbols; remaining "
+             "input_params. The stream runs the real evaluate as listed / permuted / split / with user functions and checks "
+             "both model agreement and the property itself on the real trees. The 15-significant-digit clause is an oracle "
+             "assumption about sympy's numeric folding, exercised by the stream only (partial).",
+        design_ref="DESIGN.md section 5 C05",
+        note="Trusted: Coq kernel; hand model of _evaluate_internal (tied by the stream); sympy numerics (N/round) as oracle.",
+        technique="Coq proofs about simultaneous substitution (permutation, soundness, composition) + differential correspondence",
+    ),
     "C07": dict(
         category="proof",
         text="Six closed theorems (induction on count) about the formulas regenerated from repetitions.py on every run: "
